@@ -447,6 +447,9 @@ def contains(container, item, st: St):
             return z3.Exists([j], z3.And(0 <= j, j < h.c["sl"][r], eq(Val(h.c["sa"][r][j], ty[1]), item, st)))
         finally:
             smt.pop_binder()
+    if k == "str":
+        # substring test: uninterpreted (string structure is not modelled)
+        return z3.Function("str_contains", V, V, z3.BoolSort())(r, to_v(item, st))
     if k == "any":
         it = to_v(item, st)
         j = z3.Int(smt.push_binder("cj"))
